@@ -85,7 +85,7 @@ def _parse_anchor(rest):
 
 def _expand_macros(lines):
     """//@@template NAME ... //@@endtemplate defines a block; //@@use NAME a=b c=d
-    instantiates it with $a / $c replaced."""
+    instantiates it with $a / $c replaced (in a value, `~` stands for a blank)."""
     tpl = {}
     out = []
     cur = None
@@ -109,7 +109,8 @@ def _expand_macros(lines):
         for ln in out:
             m = re.match(r'^\s*//@@use\s+(\w+)\s*(.*)$', ln)
             if m and m.group(1) in tpl:
-                args = dict(kv.split('=', 1) for kv in m.group(2).split())
+                # values cannot contain blanks: `~` stands for one
+                args = dict((kv.split('=', 1)[0], kv.split('=', 1)[1].replace('~', ' ')) for kv in m.group(2).split())
                 for t in tpl[m.group(1)]:
                     for k in sorted(args, key=len, reverse=True):
                         t = t.replace('$' + k, args[k])
